@@ -204,14 +204,18 @@ func gatesWrap(s *Summary, c *gateCase) {
 	}
 	r := rux.New()
 	// wrapped generic handlers take part in the chain like native middleware
+	type reqKey struct{}
+	var genericSaw any
 	generic := http.HandlerFunc(func(w http.ResponseWriter, r *http.Request) {
 		log = append(log, "in:generic")
-		w.Write([]byte("g")) // commits the header: the status recorded by the native middleware before must be sent
+		genericSaw = r.Context().Value(reqKey{}) // what a native middleware before it put into the request context
+		w.Write([]byte("g"))                     // commits the header: the status recorded by the native middleware before must be sent
 	})
 	var seenStatus, seenLen int
 	r.Use(func(cx *rux.Context) {
 		log = append(log, "in:native1")
 		cx.SetStatus(201)
+		cx.WithReqCtxValue(reqKey{}, "from-native1")
 		cx.Next()
 		seenStatus, seenLen = cx.StatusCode(), cx.Length()
 	})
@@ -230,6 +234,11 @@ func gatesWrap(s *Summary, c *gateCase) {
 	rec := httptest.NewRecorder()
 	h.ServeHTTP(rec, httptest.NewRequest("GET", "http://example.com/w", nil))
 	s.Compared++
+	if genericSaw != "from-native1" {
+		s.mismatch(map[string]any{"kind": "gates", "aspect": "wrap", "what": fmt.Sprintf(
+			"a generic handler wrapped with WrapHTTPHandler behind a native middleware that stored a value in the request context finds %v there (a native handler finds \"from-native1\")", genericSaw)}, c)
+		return
+	}
 	if rec.Code != 201 || seenStatus != 201 || seenLen != 1 {
 		s.mismatch(map[string]any{"kind": "gates", "aspect": "wrap", "what": fmt.Sprintf(
 			"a generic handler wrapped with WrapHTTPHandler after a native middleware that set status 201: response %d, the middleware sees StatusCode()=%d Length()=%d after Next (expected 201, 201, 1)",
